@@ -1,5 +1,6 @@
 /-
-  C09 — translation tie for planar/contains.go `rayIntersect`.
+  C09 — translation tie for planar/contains.go: `rayIntersect`, and (second half of the file) `RingContains`,
+  `PolygonContains`, `MultiPolygonContains` with their loops, early returns and index panics.
   `Generated/PlanarGo.lean` is REGENERATED from /repo on every run by
   harness/cmd/factgen/translate_float.go.  The Go function is translated as it is written: the swap
   of `s`, `e`, the two on-vertex tests with their early returns, the assignment
@@ -12,6 +13,8 @@
 -/
 import Orb.Contains
 import Generated.PlanarGo
+import Orb.LoopForms
+import OrbProofs.C06Tie
 
 namespace Orb.C09Tie
 open Orb Orb.Core
@@ -94,6 +97,141 @@ theorem rayIntersect_tie (next : α → α) (p s e : Pt α) :
     unfold Generated.PlanarGo.rayIntersect
     simp only [h, gt_iff_lt, ↓reduceIte]
     rfl
+
+/-! ### RingContains, PolygonContains, MultiPolygonContains
+
+The three functions are translated WITH Go's run-time checks: `r[0]`, `r[len(r)-1]`, `p[0]` become
+explicit tests answering `.panic "index out of range [i] with length n"`, a call of a function that
+may panic is matched on, and the loops that return from inside (`if on { return true }`,
+`if RingContains(p[i], point) { return false }`, `if PolygonContains(p, point) { return true }`) are
+the returning folds `foldPairsRet` / `foldlRet` of `Orb.LoopForms`.  The ties below are equalities
+with the models of `Orb.Contains` on ALL inputs, the panics included. -/
+
+open Orb.LoopForms
+
+/-- the edge loop `for i := 0; i < len(r)-1; i++` of `RingContains` -/
+theorem ringLoop_tie (next : α → α) (p : Pt α) (l : List (Pt α)) (c : Bool) :
+    (match foldPairsRet (ρ := Res Unit Bool) (fun (c : Bool) (a b : Pt α) =>
+        let (inter, on) := Generated.PlanarGo.rayIntersect next p a b
+        if on then Sum.inl (.ok true)
+        else
+          let c : Bool := if inter then !c else c
+          Sum.inr c) l c with
+      | .inl r => r
+      | .inr c => .ok c)
+      = .ok (Contains.ringLoop (Contains.Nudge.real next) p l c) := by
+  induction l generalizing c with
+  | nil => rfl
+  | cons a t ih =>
+    cases t with
+    | nil => rfl
+    | cons b t' =>
+      simp only [foldPairsRet, Contains.ringLoop]
+      rw [← rayIntersect_tie]
+      generalize Generated.PlanarGo.rayIntersect next p a b = io
+      obtain ⟨inter, on⟩ := io
+      cases on with
+      | true => rfl
+      | false => exact ih _
+
+theorem getD_last (v : Pt α) (t : List (Pt α)) (d : Pt α) :
+    (v :: t).getD ((v :: t).length - 1) d = (v :: t).getLast?.getD v := by
+  rw [List.getLast?_eq_getElem?, List.getD_eq_getElem?_getD]
+  have h : (v :: t).length - 1 < (v :: t).length := by simp
+  rw [List.getElem?_eq_getElem h]
+  rfl
+
+/-- `RingContains`, the panic of `r[0]` on an empty ring whose (sentinel) bound contains the point
+    included -/
+theorem ringContains_tie (next : α → α) (eb : Bound α) (r : List (Pt α)) (p : Pt α) :
+    Generated.PlanarGo.ringContains next eb r p = Contains.ringContains (Contains.Nudge.real next) eb r p := by
+  unfold Generated.PlanarGo.ringContains Contains.ringContains
+  have hb : Generated.BoundGo.boundContains (Generated.BoundGo.ringBound eb r) p = (multiPointBound eb r).contains p := by
+    rw [Orb.C06Tie.ringBound_tie]; rfl
+  rw [hb]
+  cases hc : (multiPointBound eb r).contains p with
+  | false => rfl
+  | true =>
+    cases r with
+    | nil =>
+      simp only [List.length_nil, Nat.lt_irrefl, ↓reduceIte, Bool.not_true, Bool.false_eq_true]
+      rfl
+    | cons v t =>
+      have h1 : 0 < (v :: t).length := by simp
+      have h2 : 1 ≤ (v :: t).length ∧ (v :: t).length - 1 < (v :: t).length := by simp
+      simp only [Bool.not_true, Bool.false_eq_true, ↓reduceIte, h1, h2, and_self, getD_last, List.getD_cons_zero]
+      rw [← rayIntersect_tie]
+      generalize Generated.PlanarGo.rayIntersect next p v ((v :: t).getLast?.getD v) = io
+      obtain ⟨c, on⟩ := io
+      cases on with
+      | true => rfl
+      | false => exact ringLoop_tie next p (v :: t) c
+
+/-- the hole loop `for i := 1; i < len(p); i++ { if RingContains(p[i], point) { return false } }` -/
+theorem holesLoop_tie (next : α → α) (eb : Bound α) (p : Pt α) (hs : List (List (Pt α))) :
+    (match foldlRet (ρ := Res Unit Bool) (fun (_ : Unit) (x : List (Pt α)) =>
+        (match Generated.PlanarGo.ringContains next eb x p with
+        | .ok v => if v then Sum.inl (.ok false) else Sum.inr ()
+        | .err e => Sum.inl (.err e)
+        | .panic m => Sum.inl (.panic m))) hs () with
+      | .inl r => r
+      | .inr _ => .ok true)
+      = Contains.holesLoop (Contains.Nudge.real next) eb p hs := by
+  induction hs with
+  | nil => rfl
+  | cons h t ih =>
+    simp only [foldlRet, Contains.holesLoop]
+    rw [← ringContains_tie]
+    cases Generated.PlanarGo.ringContains next eb h p with
+    | ok v =>
+      cases v with
+      | true => rfl
+      | false => exact ih
+    | err e => rfl
+    | panic m => rfl
+
+/-- `PolygonContains`, the panic of `p[0]` on a polygon without rings included -/
+theorem polygonContains_tie (next : α → α) (eb : Bound α) (pg : List (List (Pt α))) (p : Pt α) :
+    Generated.PlanarGo.polygonContains next eb pg p = Contains.polygonContains (Contains.Nudge.real next) eb pg p := by
+  unfold Generated.PlanarGo.polygonContains Contains.polygonContains
+  cases pg with
+  | nil =>
+    simp only [List.length_nil, Nat.lt_irrefl, ↓reduceIte]
+    rfl
+  | cons outer holes =>
+    have h1 : 0 < (outer :: holes).length := by simp
+    simp only [h1, ↓reduceIte, List.getD_cons_zero, List.drop_one, List.tail_cons]
+    rw [← ringContains_tie]
+    cases Generated.PlanarGo.ringContains next eb outer p with
+    | ok v =>
+      cases v with
+      | false => rfl
+      | true => exact holesLoop_tie next eb p holes
+    | err e => rfl
+    | panic m => rfl
+
+/-- `MultiPolygonContains` -/
+theorem multiPolygonContains_tie (next : α → α) (eb : Bound α) (mp : List (List (List (Pt α)))) (p : Pt α) :
+    Generated.PlanarGo.multiPolygonContains next eb mp p
+      = Contains.multiPolygonContains (Contains.Nudge.real next) eb mp p := by
+  unfold Generated.PlanarGo.multiPolygonContains
+  induction mp with
+  | nil => rfl
+  | cons pg t ih =>
+    simp only [foldlRet, Contains.multiPolygonContains]
+    rw [← polygonContains_tie]
+    cases Generated.PlanarGo.polygonContains next eb pg p with
+    | ok v =>
+      cases v with
+      | true => rfl
+      | false => exact ih
+    | err e => rfl
+    | panic m => rfl
+
+theorem contains_translated :
+    "rayIntersect" ∈ Generated.PlanarGo.translated ∧ "ringContains" ∈ Generated.PlanarGo.translated ∧
+    "polygonContains" ∈ Generated.PlanarGo.translated ∧ "multiPolygonContains" ∈ Generated.PlanarGo.translated := by
+  decide
 
 theorem rayIntersect_translated : "rayIntersect" ∈ Generated.PlanarGo.translated := by
   decide
